@@ -30,6 +30,9 @@ NoVal == [k |-> "none"]
 OkR(v, p)  == [ok |-> TRUE,  err |-> "",  v |-> v,     pos |-> p, sizes |-> << >>, fl |-> {}]
 ErrR(e)    == [ok |-> FALSE, err |-> e,   v |-> NoVal, pos |-> 0, sizes |-> << >>, fl |-> {}]
 
+\* does an observed failure class match the specified one?
+ErrMatches(status, err) == status = err \/ (err = "eof-or-decode" /\ status \in {"eof", "decode"})
+
 Endian(bytes, m) == IF m.endian = "<" THEN bytes ELSE Rev(bytes)
 
 -----------------------------------------------------------------------------
@@ -178,7 +181,7 @@ Decode(t, m, inp, pos, ctx, consts) ==
               IN IF n = XX THEN ErrR("domain")
                  ELSE IF n = -1 \/ (n > 0 /\ pos + 2 * n > Len(inp)) THEN ErrR("eof")
                  ELSE LET d == U16(Units(Slice(inp, pos, 2 * n), m), << >>) IN
-                      IF ~d.ok THEN ErrR("decode")
+                      IF ~d.ok THEN ErrR(IF odd THEN "eof-or-decode" ELSE "decode")   \* which failure is noticed first is open
                       ELSE [OkR([k |-> "str", cps |-> d.cps],
                                 IF odd THEN Len(inp) ELSE pos + 2 * n + (IF t.len.k = "null" THEN 2 ELSE 0))
                             EXCEPT !.fl = IF odd THEN {"lax"} ELSE {}]
@@ -390,6 +393,12 @@ Fits(t, m, v) ==
          \A j \in 1..Len(t.fields) :
             IF t.fields[j].bits > 0 THEN TRUE ELSE Fits(t.fields[j].type, m, v.vals[j])
     [] OTHER -> TRUE
+
+\* does t contain a to-end-of-stream array?  (its extent is the end of input by definition)
+RECURSIVE HasEof(_)
+HasEof(t) == CASE t.k = "arr" -> t.len.k = "eof" \/ HasEof(t.elem)
+               [] t.k \in {"struct", "union"} -> \E i \in 1..Len(t.fields) : HasEof(t.fields[i].type)
+               [] OTHER -> FALSE
 
 \* is the writer defined for t at all?  (dynamic unions cannot be written)
 RECURSIVE Writable(_, _)
